@@ -105,6 +105,8 @@ func NewMethodEvaluator(
 }
 
 func (m *MethodEvaluator) Evaluation() error {
+	defer verifCall(m)()
+
 	methodEvaluateStrategy := NewStrategy(m)
 
 	return methodEvaluateStrategy.evaluate(m)
